@@ -43,6 +43,11 @@ Section Polar.
     | Err e => Err e
     | Ok Ui => Ok (matmul3 M Ui, Um)
     end.
+
+  (* the repaired right variant (fixes/C11-polar-right-singular.patch):
+     return U @ Vh, Vh.transpose() @ (np.diag(S) @ Vh) -- never raises *)
+  Definition polar_right_repaired (U S Vh : arr F) : arr F * arr F :=
+    (matmul3 U Vh, matmul3 (transpose3 Vh) (matmul3 (diag3 S) Vh)).
 End Polar.
 
 (* ---------------------------------------------------------------------- *)
